@@ -20,10 +20,8 @@ GROUPS = {
             'scalar_u128': ('ser.u128', None), 'scalar_bool': ('ser.bool', None), 'scalar_f64': ('ser.f64', None),
             'scalar_f32': ('ser.f32', None), 'scalar_unit_and_none': ('ser.unit_none', None),
             'scalar_unit_struct': ('ser.unit_struct', None), 'scalar_some_and_newtype': ('ser.some_newtype', None),
-            'shape_non_string_key': ('ser.non_string_key', 'one fixed shape: a map whose first key is a u8'),
             'shape_custom_error': ('ser.custom_error', 'one fixed shape: a Serialize impl returning custom("boom")'),
             'shape_tuple2': ('ser.tuple2', 'one fixed shape: (u8, bool) with symbolic leaves'),
-            'shape_seq_error': ('ser.seq_error', 'one fixed shape: (u8, u128 > i128::MAX)'),
         },
     },
 }
@@ -67,27 +65,45 @@ def _run_one(prop, g, spec, tier, sdir, out):
         out['tool'].append('cargo kani timed out (group %s)' % g)
     wall = time.time() - t0
     out['cmds'].append('(scratch copy of /repo + %s) %s   [%.0fs]' % (spec['harness_file'], ' '.join(cmd).replace(tdir, '<cache>/kani-target'), wall))
-    # parse per-harness verdicts
+    # parse per-harness verdicts (terse output of parallel threads is interleaved: track "Thread N:" headers)
     verdict = {}
-    cur = None
+    timed_out = set()
+    thread_h = {}
+    cur_thread = None
+    cur_seq = None
     for line in text.split('\n'):
+        m = re.match(r'Thread (\d+): Checking harness (\S+?)\.\.\.', line)
+        if m:
+            thread_h[m.group(1)] = m.group(2).split('::')[-1]
+            cur_thread = m.group(1)
+            continue
+        m = re.match(r'Thread (\d+):', line)
+        if m:
+            cur_thread = m.group(1)
+            continue
         m = re.search(r'Checking harness (\S+?)\.\.\.', line)
         if m:
-            cur = m.group(1).split('::')[-1]
+            cur_seq = m.group(1).split('::')[-1]
+            cur_thread = None
+            continue
+        h = thread_h.get(cur_thread) if cur_thread is not None else cur_seq
+        if h is None:
+            continue
+        if 'CBMC timed out' in line:
+            timed_out.add(h)
+            verdict.pop(h, None)
         m = re.search(r'VERIFICATION:- (SUCCESSFUL|FAILED)', line)
-        if m and cur:
-            verdict.setdefault(cur, m.group(1))
-        m = re.search(r'Thread \d+: Checking harness (\S+?)\.\.\.', line)
-    # terse + -j prints a summary; fall back to scanning the summary lines
+        if m and h not in timed_out:
+            verdict[h] = m.group(1)
     for m in re.finditer(r'Verification failed for - (\S+)', text):
-        verdict[m.group(1).split('::')[-1]] = 'FAILED'
+        h = m.group(1).split('::')[-1]
+        if h not in timed_out:
+            verdict[h] = 'FAILED'
     msum = re.search(r'Complete - (\d+) successfully verified harnesses, (\d+) failures, (\d+) total', text)
-    timed_out = set(x.split('::')[-1] for x in re.findall(r'Harness (\S+) timed out', text))
-    timed_out |= set(x.split('::')[-1] for x in re.findall(r'(\S+) timed out', text) if 'verif_kani' in x)
     if msum is None and not verdict:
         out['tool'].append('no Kani verdicts (group %s): %s' % (g, text[-1500:]))
         return
-    failed_names = set(k for k, v in verdict.items() if v == 'FAILED')
+    failed_names = set(k for k, v in verdict.items() if v == 'FAILED') - timed_out
     for h, (cid, bounded) in spec['harnesses'].items():
         if h in timed_out:
             out['tool'].append('kani harness %s timed out after %ds (UNDECIDED)' % (h, per))
@@ -113,6 +129,7 @@ def _run_one(prop, g, spec, tier, sdir, out):
     out['trusted'].extend(['kani: serde derive output for the harness types', 'kani: CBMC 6.11 / Kani 0.68 encodings',
                            'kani: alloc / String internals as compiled (not stubbed)'])
     out['raw_tail'] = text[-3000:]
+    out['raw'] = text
 
 
 def _harness_excerpt(text, h):
